@@ -18,6 +18,8 @@ Sections (the ``kind`` of a work item):
 ``wire``      real ``<Transport>.connect(uri)`` with a fake socket / connection: the socket options, bind
               address and connection arguments must carry the URI's numeric settings (flag set iff present)
 ``notation``  a digit string without prefix is decimal; bare hex digits ('f1') are no integer anywhere
+``history``   parsing is a pure function of (literal, entry point): every literal through every ordered pair of
+              integer entry points (A, B, A again) and interleaved with other literals, in one process
 ``doip``      every ``f"doip://..."`` expression of commands/discover/doip.py - cut out by AST
 ``r1``        utils.unravel and the ``Ranges`` pydantic type (str / list[str] input)
 ``r2``        utils.unravel_2d and the ``Ranges2D`` pydantic type (str / list[str] input)
@@ -67,6 +69,10 @@ RULE = (
     "recorded setsockopt/bind calls; can-raw bind/FD option; DoIP/HSFZ connect arguments over boundary values "
     "and hosts. notation: 13 prefix-less / malformed hex texts must be rejected and 6 digit strings must be "
     "decimal in auto_int, AutoInt, unravel, Ranges, unravel_2d and every int field of every config model. "
+    "history: 22 literals x all ordered pairs of the integer entry points (auto_int, AutoInt, HexInt, "
+    "err_int base 0/16, dddi.parse_definitions, EnumArg, unravel, Ranges, unravel_2d, every int field of every "
+    "config model): A(L), B(L), A(L) and A(L1), B(L2), A(L1) in one process, each result compared with the "
+    "reference of its own entry point (base-0 resp. hex). "
     "host:port: all hosts x ports x default_port {None,0,13400} (+ every port 0..65535 for 1 (quick) / 4 "
     "(thorough) hosts). builders: real HSFZDiscoverer.probe coroutine and AST-extracted "
     "doip:// f-strings with boundary addresses/ports/timeouts (hsfz ack_timeout: 20 floats incl. values whose product with 1000 falls "
@@ -288,6 +294,7 @@ def worker_init() -> None:
 
     import gallia.command  # noqa: F401  (import order)
     import pydantic
+    from gallia.command import config as gconfig
     from gallia.command.config import AutoInt, Ranges, Ranges2D
     from gallia.net import join_host_port, split_host_port
     from gallia.transports.base import TargetURI
@@ -308,6 +315,7 @@ def worker_init() -> None:
         schemes=sorted(str(s.value) for s in TransportScheme),
         BaseModel=pydantic.BaseModel,
         ValidationError=pydantic.ValidationError,
+        gconfig=gconfig,
     )
     models: dict[str, Any] = {}
     for scheme, (modname, clsname, _fields) in MODELS.items():
@@ -1497,6 +1505,101 @@ def run_notation(res: Result) -> None:
 
 
 # ---------------------------------------------------------------------------------------------
+# section: parsing is a pure function of (literal, entry point) - no history dependence within one process
+
+HISTORY_LITERALS = [t for t, _v in NUMERALS] + ["10", "42", "99", "0b101", "0b1", "0x1f", "0xFF", "0o17", "f1", "ff", "0a", "1f", "abc", "0b2"]
+
+
+def _history_targets() -> dict[str, tuple[Any, Any]]:
+    """every integer entry point: name -> (reference, callable)"""
+    if "history_targets" in G:
+        return G["history_targets"]
+    import enum
+    import importlib
+
+    import pydantic
+
+    t: dict[str, tuple[Any, Any]] = {name: (M.ref_base0, fn) for name, fn in _notation_targets().items()}
+    gconfig = G["gconfig"]
+    if hasattr(gconfig, "HexInt"):
+        t["HexInt"] = (M.ref_base16, pydantic.TypeAdapter(gconfig.HexInt).validate_python)
+    else:
+        G.setdefault("history_missing", []).append("entry:HexInt")
+    if hasattr(gconfig, "err_int"):
+        t["err_int(x,0)"] = (M.ref_base0, lambda x: gconfig.err_int(x, 0))
+        t["err_int(x,16)"] = (M.ref_base16, lambda x: gconfig.err_int(x, 16))
+    else:
+        G.setdefault("history_missing", []).append("entry:err_int")
+    try:
+        dddi = importlib.import_module("gallia.commands.primitive.uds.dddi")
+        pd = dddi.parse_definitions
+
+        def via_dddi(x: str) -> int:
+            a, b, c = pd(f"{x}:{x}:{x}", 3)
+            if not a == b == c:
+                raise AssertionError(f"one literal, three values: {(a, b, c)}")
+            return a
+
+        t["dddi.parse_definitions"] = (M.ref_base0, via_dddi)
+    except (ImportError, AttributeError):
+        G.setdefault("history_missing", []).append("entry:dddi.parse_definitions")
+    values = sorted({v for lit in HISTORY_LITERALS if (v := M.ref_base0(lit)) is not None})
+    ProbeEnum = enum.IntEnum("ProbeEnum", {f"V{v}": v for v in values})
+    if hasattr(gconfig, "EnumArg"):
+        adapter = pydantic.TypeAdapter(gconfig.EnumArg[ProbeEnum]).validate_python
+        t["EnumArg[IntEnum]"] = (M.ref_base0, lambda x: int(adapter(x)))
+    G["history_targets"] = t
+    return t
+
+
+def _history_call(res: Result, entry: str, lit: str, history: str) -> None:
+    ref, fn = _history_targets()[entry]
+    want = ref(lit)
+    ok, out = call(fn, lit)
+    if want is None:
+        if ok:
+            res.violate(f"C20|history|{entry}|accepted", f"{entry}({lit!r}) = {out!r} after [{history}]; {lit!r} is no numeral for this entry point", {"kind": "history", "literal": lit})
+    elif not ok:
+        res.violate(f"C20|history|{entry}|rejected", f"{entry}({lit!r}) raised {_exc(out)} after [{history}]; denotes {want}", {"kind": "history", "literal": lit})
+    elif out != want or isinstance(out, bool):
+        res.violate(f"C20|history|{entry}|wrong-value", f"{entry}({lit!r}) = {out!r} after [{history}]; denotes {want} whatever was parsed before", {"kind": "history", "literal": lit})
+
+
+def run_history(res: Result, literals: list[str] | None = None, interleave: bool = True) -> None:
+    targets = _history_targets()
+    for m in G.get("history_missing", []):
+        res.uncovered.add(m)
+    names = list(targets)
+    lits = literals or HISTORY_LITERALS
+    n = 0
+    # (1) the same literal through every ordered pair of entry points: A, B, A again
+    for lit in lits:
+        for a in names:
+            for b in names:
+                _history_call(res, a, lit, "...")
+                _history_call(res, b, lit, f"{a}({lit!r})")
+                _history_call(res, a, lit, f"{a}({lit!r}), {b}({lit!r})")
+                n += 3
+        res.seen("nontrivial", ("history", lit))
+    # (2) different literals interleaved: A(L1), B(L2), A(L1)
+    if interleave:
+        for a in names:
+            for b in names:
+                for i, l1 in enumerate(lits):
+                    l2 = lits[(i + 1) % len(lits)]
+                    _history_call(res, a, l1, "...")
+                    _history_call(res, b, l2, f"{a}({l1!r})")
+                    _history_call(res, a, l1, f"{a}({l1!r}), {b}({l2!r})")
+                    n += 3
+                res.seen("nontrivial", ("history-pair", a, b))
+    res.count("evaluations", n)
+    res.count("history_calls", n)
+    _kind(res, "history", n)
+    res.notes["history_entry_points"] = names
+    res.sample({"history": "AutoInt('10'), HexInt('10'), AutoInt('10')", "denotes": [10, 16, 10]}, cap=1)
+
+
+# ---------------------------------------------------------------------------------------------
 # section: the discovery scanners' own emission code, run for real against fake buses / gateways
 
 
@@ -1693,7 +1796,7 @@ SCAN_TESTERS = [0x000, 0x6F1, 0x7FF, 0x742, 0x605, 0x61A]  # low byte: 00, f1, f
 
 def new_items(tier: str) -> list[tuple[Any, ...]]:
     quick = tier == "quick"
-    out: list[tuple[Any, ...]] = [("notation",)]
+    out: list[tuple[Any, ...]] = [("notation",), ("history",)]
     out += [("wire", "isotp", p) for p in range(5)] + [("wire", "can-raw", 0), ("wire", "hsfz", 0), ("wire", "doip", 0)]
     # ISO-TP discovery, extended addressing: all 256 address bytes x tester classes x padding x frame formats
     for tester in SCAN_TESTERS + [0x18DA42F1, 0x1FFFFFFF]:
@@ -1732,6 +1835,7 @@ def new_items(tier: str) -> list[tuple[Any, ...]]:
 
 NEW_KINDS: dict[str, Any] = {
     "notation": run_notation,
+    "history": run_history,
     "wire": run_wire,
     "scan-isotp": run_scan_isotp,
     "scan-hsfz": run_scan_hsfz,
@@ -1748,6 +1852,7 @@ def _replay_scan_isotp(res: Result, doc: dict[str, Any]) -> None:
 
 NEW_REPLAYS: dict[str, Any] = {
     "wire": replay_wire,
+    "history": lambda res, doc: run_history(res, [doc["literal"]], False),
     "notation": lambda res, doc: check_notation(res, doc["entry"], doc["text"], doc["value"]),
     "scan-isotp": _replay_scan_isotp,
     "scan-hsfz": lambda res, doc: run_scan_hsfz(res, *doc["args"]),
@@ -1918,7 +2023,7 @@ def finish(merged: Result, tier: str) -> dict[str, Any]:
         raise Broken(f"vacuous: no case evaluated for {missing}")
     if not by_kind.get("builder-doip") and not any("doip" in u for u in merged.uncovered):
         raise Broken("vacuous: builder-doip neither evaluated nor reported uncovered")
-    for k in ("scanner-isotp", "scanner-hsfz", "scanner-doip", "wire-isotp", "wire-hsfz", "wire-doip", "wire-can-raw", "notation"):
+    for k in ("scanner-isotp", "scanner-hsfz", "scanner-doip", "wire-isotp", "wire-hsfz", "wire-doip", "wire-can-raw", "notation", "history"):
         if not by_kind.get(k):
             raise Broken(f"vacuous: no case evaluated for {k}")
     if not merged.counters.get("scanner_uris_checked"):
